@@ -26,6 +26,8 @@ var props = map[string]func(*Ctx){
 	"C10": propC10,
 	"C11": propC11,
 	"C12": propC12,
+	"C13": propC13,
+	"C14": propC14,
 	"C17": propC17,
 }
 
